@@ -1199,7 +1199,7 @@ Proof.
       assert (K = 1024) as EK by (unfold K, KR, bytes_base, NR; simpl; lra).
       assert (B2R v = Y) as EV.
       { rewrite D1. unfold Y, P. rewrite EK. apply AR_exact_1024.
-        - unfold X. rewrite EX. apply RN_fmt.
+        - pose proof (RN_fmt (NR n)) as FX. rewrite <- EX in FX. exact FX.
         - intros i Hi'. rewrite <- EK. apply C, Hi'. }
       rewrite EV in Q1, Q2. destruct Q1 as [QA1 QA2].
       apply (Rmult_le_compat_r P) in QA1; [|lra]. apply (Rmult_le_compat_r P) in QA2; [|lra].
